@@ -60,6 +60,8 @@ type Cluster struct {
 	commitDone  map[uint64]bool
 	commitCond  *sync.Cond
 	Timeout     time.Duration
+	// Byz holds, per faulty participant, the key it signs with instead of its share (fault kind "byzsig").
+	Byz map[uint64]bls.SecretKey
 }
 
 type netSender struct {
@@ -264,6 +266,17 @@ func (s *netSender) Commit(ctx context.Context, recipient *core.Endpoint, accoun
 		var sk bls.SecretKey
 		sk.SetByCSPRNG()
 		sig = sk.SignByte(confirmationData).Serialize()
+	case "byzsig":
+		// a faulty participant: signs the confirmation - and everything later (see probe) - with a key that is not its share
+		var sk bls.SecretKey
+		sk.SetByCSPRNG()
+		sig = sk.SignByte(confirmationData).Serialize()
+		s.c.mu.Lock()
+		if s.c.Byz == nil {
+			s.c.Byz = map[uint64]bls.SecretKey{}
+		}
+		s.c.Byz[to.ID] = sk
+		s.c.mu.Unlock()
 	case "pubkey-empty":
 		pk = nil
 	case "sig-empty":
